@@ -111,6 +111,38 @@ pub fn make_cut_under_corpus(seed: u64, n: usize, native: bool) -> Vec<Value> {
     out.into_inner()
 }
 
+/// One-rule programs from the list built-in generators of C16 / C17 (append, count, include, exclude, functor,
+/// join over lists with bound tails, rule-built lists, bound-variable elements).
+pub fn gen_list_builtin_program(s: &mut dyn Src) -> Option<Program> {
+    let aspect = if chance(s, 1, 2) { crate::props::builtins::BAspect::Append } else { crate::props::builtins::BAspect::Misc };
+    crate::props::builtins::scenario_programs(aspect, s).into_iter().next()
+}
+
+pub fn make_list_builtin_corpus(seed: u64, n: usize, native: bool) -> Vec<Value> {
+    let out: RefCell<Vec<Value>> = RefCell::new(vec![]);
+    let config = Config { cases: (n * 20) as u32, failure_persistence: None, rng_seed: RngSeed::Fixed(splitmix(seed ^ 0xC24B)), ..Config::default() };
+    let mut runner = TestRunner::new(config);
+    let strat = vec(any::<u16>(), 16..=120);
+    let _ = runner.run(&strat, |v| {
+        let mut o = out.borrow_mut();
+        if o.len() >= n { return Ok(()); }
+        let mut src = VecSrc::new(&v);
+        let p = match gen_list_builtin_program(&mut src) { Some(p) => p, None => return Ok(()) };
+        // keep the ones that walk a bound tail or a rule-built list (the shapes the walkers special-case)
+        let text = format!("{}", p);
+        if !(text.contains("| $") || text.contains("copy(")) && o.len() % 4 != 0 { return Ok(()); }
+        let r = solve_program(&p, Limits { steps: 400, depth: 60, answers: 5 });
+        if r.status != Status::Finished { return Ok(()); }
+        let answers = if native {
+            match run_program(&p, 20, 1, 5_000_000) { Ok(x) => { if x.answers.len() != r.stats.answers { return Ok(()); } x.answers.len() } Err(_) => return Ok(()) }
+        } else { r.stats.answers };
+        if o.iter().any(|e: &Value| e["text"].as_str() == Some(&text)) { return Ok(()); }
+        o.push(json!({"choices": v, "cut": false, "special": "list-builtins", "kind": "list-builtins", "answers": answers, "cut_executed": false, "nontrivial": true, "text": text}));
+        Ok(())
+    });
+    out.into_inner()
+}
+
 /// Replays one corpus entry through the public API. Returns a description of what was executed.
 pub fn replay_entry(e: &Value) -> Result<String, String> {
     let choices: Vec<u16> = e["choices"].as_array().ok_or("choices")?.iter().map(|x| x.as_u64().unwrap_or(0) as u16).collect();
@@ -118,7 +150,11 @@ pub fn replay_entry(e: &Value) -> Result<String, String> {
     // regression entries carry no count: their answer count is whatever the current tree gives
     let expected_opt = e["answers"].as_u64().map(|x| x as usize);
     let kind = e["kind"].as_str().unwrap_or("");
-    let p = if e["special"].as_str() == Some("cut-under-not-time") { let mut src = VecSrc::new(&choices); gen_cut_under(&mut src) } else { decode(&choices, with_cut) };
+    let p = match e["special"].as_str() {
+        Some("cut-under-not-time") => { let mut src = VecSrc::new(&choices); gen_cut_under(&mut src) }
+        Some("list-builtins") => { let mut src = VecSrc::new(&choices); gen_list_builtin_program(&mut src).ok_or("list-builtin entry does not decode")? }
+        _ => decode(&choices, with_cut),
+    };
     let run = run_program(&p, 20, 2, u64::MAX).map_err(|f| format!("{:?}", f))?;
     let expected = expected_opt.unwrap_or(run.answers.len());
     if run.answers.len() != expected { return Err(format!("answer count {} differs from the native run's {}", run.answers.len(), expected)); }
